@@ -199,6 +199,23 @@ def gen_cases(ctx):
         c["known"] = [s for s in c["known"] if s != 2 ** n - 1]
         c["shape"], c["hyp"] = "grand-unknown", False
         cases.append(c)
+    # beyond the symbolically listed range ("explored numerically beyond"): n = 9, 10, with the highest player involved
+    for n in ((9, 10) if not ctx.quick else (9,)):
+        cases.append(make_case(rng, n, "int", "random"))
+        cases.append(make_case(rng, n, "int", "one-coalition", 1 << (n - 1)))          # singleton of the last player
+        cases.append(make_case(rng, n, "dyadic", "with-player", n - 1))
+        cases.append(make_case(rng, n, "int", "one-size", n - 1))
+    # narrow intervals on values of large magnitude: the gap is tiny RELATIVE to the values, yet must be reported
+    for n in (3, 4, 5):
+        for _ in range(2 if ctx.quick else 8):
+            c = make_case(rng, n, "int", rng.choice(["random", "half", "one-coalition"]), rng.randrange(1, 2 ** n - 1))
+            off = 10 ** rng.randint(5, 7)
+            for s in range(1, 2 ** n):
+                shift = off * popcount(s) ** 2
+                c["l"][s] += shift
+                c["u"][s] += shift
+            c["shape"] = "large-offset-" + c["shape"]
+            cases.append(c)
     return cases
 
 
